@@ -83,13 +83,20 @@ def histProofs : List (TrHistory.OpProof K (List (Proof K Nat))) :=
   match proverOut with | .ok (πs, _) => πs | .error _ => []
 def histLog : TLog K Nat := match proverOut with | .ok (_, s) => s | .error _ => []
 
-theorem good (wf : Bool) : GoodTrips (toyPP wf) (trips wf) := by
-  intro t ht
-  simp only [trips, polyStComm, polys, sts, comms, List.map_cons, List.map_nil, List.zip_cons_cons,
-    List.zip_nil_right, List.mem_cons, List.not_mem_nil, or_false] at ht
-  rcases ht with rfl | rfl
-  · exact ⟨toyE, 4, toy_encodes wf _ (by simp), rfl, rfl⟩
-  · exact ⟨toyE, 4, toy_encodes wf _ (by simp), rfl, rfl⟩
+/-- the triples are honest, and every point (univariate or multilinear: `ι = id`) fits their
+`2 × 2` matrices (the width `2` is a power of two) -/
+theorem good (wf : Bool) : GoodTrips (toyPP wf) (id : Point K → Point K) (trips wf) := by
+  apply goodTrips_of_pow2
+  · intro t ht
+    simp only [trips, polyStComm, polys, sts, comms, List.map_cons, List.map_nil, List.zip_cons_cons,
+      List.zip_nil_right, List.mem_cons, List.not_mem_nil, or_false] at ht
+    rcases ht with rfl | rfl
+    · exact ⟨toyE, 4, toy_encodes wf _ (by simp), rfl, rfl⟩
+    · exact ⟨toyE, 4, toy_encodes wf _ (by simp), rfl, rfl⟩
+  · intro t ht
+    simp only [trips, polyStComm, polys, sts, comms, List.map_cons, List.map_nil, List.zip_cons_cons,
+      List.zip_nil_right, List.mem_cons, List.not_mem_nil, or_false] at ht
+    rcases ht with rfl | rfl <;> cases wf <;> decide
 
 set_option maxRecDepth 8000 in
 theorem prover_eq : proverOut = .ok (histProofs, histLog) := by decide
